@@ -100,5 +100,21 @@ for seed in range(20000):
             try:
                 n2=mio.from_xml(mio.to_xml(n),clean,collapse,lits)
             except Exception as x: bk['reimport-exc']+=1; ex.setdefault('reimport-exc',(doc,mio.to_xml(n),str(x))); continue
+            def cmpst(a_,b_,path=''):
+                if (a_.name,a_.prefix,a_.attributes,a_.nsmap)!=(b_.name,b_.prefix,b_.attributes,b_.nsmap): return path+' struct'
+                ea=sorted(a_.extras.values()); eb=sorted(b_.extras.values())
+                if len(a_.extras)!=len(b_.extras) or ea!=eb: return path+' extras'
+                def nz(x): return ' '.join((x or '').split()) if collapse else (x or '').strip()
+                if nz(a_.content)!=nz(b_.content): return path+f' content {a_.content!r} {b_.content!r}'
+                if nz(a_.tail)!=nz(b_.tail): return path+f' tail {a_.tail!r} {b_.tail!r}'
+                if len(a_.children)!=len(b_.children): return path+' nk'
+                for x_,y_ in zip(a_.children,b_.children):
+                    r__=cmpst(x_,y_,path+'/'+x_.name)
+                    if r__: return r__
+            d2=cmpst(n,n2)
+            if d2: k2=('stab',clean,collapse,d2.split()[1]); bk[k2]+=1; ex.setdefault(k2,(doc,mio.to_xml(n),d2))
+            n3=mio.from_xml(mio.to_xml(n2),clean,collapse,lits)
+            d3=cmpst(n2,n3)
+            if d3: bk[('stab2',d3.split()[1])]+=1
 print(bk)
 for k,v in ex.items(): print(k,v)
